@@ -99,3 +99,15 @@ def draw(rng, name, bsd_mod=None):
         # END word 2 is the result; the fault type (END word 3) is only converted when the result is 0
         e[2] = 0 if rng.chance(0.7) else rng.randrange(1, 10)
     return s, e
+
+
+def draw_single(rng, name, bsd_mod=None):
+    """Words for a NONE/ALL-qualified record of decoder `name`: the one record is both first and last of its
+    window, so it has to satisfy the START- and the END-position domains at once."""
+    s, e = draw(rng, name, bsd_mod)
+    for where, idx, kind, spec in DOMAINS.get(name, ()):
+        if where == 'E':
+            s[idx] = e[idx]
+    if name == 'MACH_vmfault':
+        s[2] = e[2]
+    return s
